@@ -91,6 +91,11 @@ CLAIMS["C07"] = dict(
     note="NOT decided: interleavings of ticks/shipments/hand-overs; SamplePostprocessor record counts and the metrics store internals are not yet under contract. One genuine defect (sampler replaced un-drained at a task-to-task transition) was found and repaired by a fix: commit.",
     design="§4 C07",
 )
+CLAIMS["C04"] = dict(
+    text="Proof, for every schedule and every clock behaviour allowed by a monotone ghost clock, of ghost assertions placed at the call sites inside AsyncExecutor.__call__: a throttled request is never issued before total_start + its scheduled time; at every Sampler.add the recorded service_time == request_end - request_start >= 0, processing_time == processing_end - processing_start >= service_time, latency == request_end - scheduled time (>= service_time) if throttled and == service_time otherwise, and the sample carries the executor's task, client id, the yielded sample type and the issue time; exactly one sample per consumed schedule entry (loop invariant nev == iterations); the completion flag is set at the end iff the task completes its parent.",
+    note="Assumed: perf_counter monotone, asyncio.sleep(d) returns no earlier than d later, the runner issues >= 1 wire request inside the request context (A-REQ). execute_single's error mapping is not yet under contract. Exact reals.",
+    design="§4 C04",
+)
 NA_DEFAULT = "check not built yet in this revision (the framework is under construction; see DESIGN.md §6b build order)"
 checks = []
 for p in props:
